@@ -141,6 +141,11 @@ class SockSimulation(protosim.ProtoSimulation):
             sess.in_flight[sender] = sess.in_flight.get(sender, 0) + 1
             self.backlog.append((sess, sender, recipient, piece, last, rec))
             return
+        if self.conn.to_fandango.eof or self.conn.to_fandango.reset:
+            # the connection is gone: the rest of this message never reaches Fandango.  What did
+            # arrive may be a complete message of a shorter, prefix-overlapping type.
+            rec["cut"] = True
+            return
         self.run.event("deliver", sender, recipient, piece)
         self.conn.to_fandango.buf += piece.encode("latin-1")
         sess.delivered[sender] = sess.delivered.get(sender, 0) + len(piece)
@@ -160,6 +165,10 @@ class SockSimulation(protosim.ProtoSimulation):
                 self.conn.to_fandango.reset = True
                 self.conn.to_peer.reset = True
                 self.run.fault("reset")
+                # a reset discards what Fandango has not read yet: any message of this peer may have
+                # reached it only in part
+                for r_ in sess.emitted.get(sender, []):
+                    r_["cut"] = True
                 sess.fault = sess.fault or ("reset", sender, len(sess.emitted.get(sender, [])))
                 self.run.op("t=%.3f connection reset by peer" % self.clock.elapsed())
                 return
@@ -172,7 +181,7 @@ def run(run: Run) -> None:
     from fandango.language.grammar import FuzzingMode
 
     ch, cfg = run.ch, run.cfg
-    pcfg = dict(cfg.get("proto", {}), two_fuzzers=0.0, two_externals=0.0, reuse_types_rate=0.0, ext_to_ext_rate=0.0)
+    pcfg = dict(cfg.get("proto", {}), two_fuzzers=0.0, two_externals=0.0, reuse_types_rate=0.0, ext_to_ext_rate=0.0, routed_rate=0.0)
     proto = P.gen_protocol(ch, pcfg)
     proto.party_code = lambda: "from simfw.netparties import %s\n" % ", ".join(proto.fuzzers + proto.externals)
     text = proto.to_fan()
